@@ -483,9 +483,9 @@ func gen(r *rand.Rand, tier string, n int) []any {
 		default:
 			in.Kind = "ketama"
 			maxNodes := 12
-			if r.Intn(200) == 0 {
+			if r.Intn(60) == 0 { // the public constructor, real SectionsPerNode; lists are shuffled (unsorted)
 				in.Kind = "multi"
-				maxNodes = 2
+				maxNodes = 3
 			}
 			in.Endpoints, in.RF = genSafeLayout(r, maxNodes)
 			in.Spn = int(common.Pick(r, int64(1), 2, 3, 5, 8))
